@@ -42,7 +42,7 @@ ASSUMPTIONS = [
     'traits would stay while the reply shows none)',
 ]
 TRUSTED = ['pbt/reservation.py (FakeLdap, Model)']
-BUDGET = {'quick': 2400, 'thorough': 128000}
+BUDGET = {'quick': 8000, 'thorough': 128000}
 
 _API = {}
 # Calibration knob only (never set by ./check or the manifest): buckets named
